@@ -136,6 +136,10 @@ class BorderRelocator:
             sub_size = Array2D(
                 values=np.full(fill_value=sub_size, shape=mask.shape_slim), mask=mask
             )
+        else:
+            # an adaptive sub-size map may hold floats (e.g. `OverSamplingUniform.from_radial_bins`): sub sizes are
+            # integers, as `OverSamplerUniform` treats them
+            sub_size = Array2D(values=np.array(sub_size).astype("int"), mask=mask)
 
         self.sub_size = sub_size
 
